@@ -53,12 +53,14 @@ C22_BREAKS = {
     "statement-rewritten": ["new-statement-appeared:"],
 }
 # proposed repairs (monkeypatched inside the driver child): the named witness key of the unchanged tree must disappear,
-# every other key must stay (attribution of the mechanisms is independent)
+# (the mechanisms are attributed independently: see the printed key sets)
 C22_DIRECTED_FIXES = {  # judged on the in-process directed part (hand-built tests through the real visitors)
     "PROPOSED_FIX_protect-dotted-sources": ["asserted-statement-lost:iterative-forward:dotted-source-unprotected",
                                             "asserted-statement-lost:iterative-backward:dotted-source-unprotected"],
 }
 C22_FIXES = {
+    "PROPOSED_FIX_minimiser-compares-covered-goals": ["coverage-dropped:CASE", "minimize-raises:TypeError:restore-path"],
+    "PROPOSED_FIX_post-check-recomputes,PROPOSED_FIX_restore-path-emulated": ["coverage-dropped:CASE", "minimize-raises:TypeError:restore-path"],
     "PROPOSED_FIX_remove-unused-keeps-asserted": ["asserted-statement-lost:remove_unused_variables"],
     "PROPOSED_FIX_combined-protection": ["asserted-statement-lost:combined-ignores-protection"],
 }
@@ -68,6 +70,9 @@ C22_RUNS = [
      "coverage_metrics": ["BRANCH", "LINE"]},
     {"sut": "account", "algorithm": "DYNAMOSA", "seed": 102, "iterations": 6, "assertion_generation": "SIMPLE", "strategy": "SUITE", "direction": "FORWARD"},
     {"sut": "lastcall", "algorithm": "DYNAMOSA", "seed": 103, "iterations": 6, "assertion_generation": "SIMPLE", "strategy": "COMBINED", "direction": "FORWARD"},
+    {"sut": "account", "algorithm": "DYNAMOSA", "seed": 168789, "iterations": 6, "assertion_generation": "SIMPLE", "strategy": "CASE", "direction": "BACKWARD"},
+    {"sut": "queue_", "algorithm": "RANDOM", "seed": 831077, "iterations": 4, "assertion_generation": "SIMPLE", "strategy": "SUITE", "direction": "FORWARD",
+     "coverage_metrics": ["BRANCH", "LINE"]},
 ]
 
 C35_BREAKS = {
@@ -162,7 +167,7 @@ def c22_directed(brk):
 
 
 def judge(name, brk, got, baseline, expected, incon):
-    new = {k: v for k, v in got.items() if k not in baseline}
+    new = {k: v for k, v in got.items() if v > baseline.get(k, 0)}  # a new mechanism key, or more witnesses of a known one
     hit = [k for k in new if any(k.startswith(p) for p in expected)]
     status = "CAUGHT" if hit else "MISSED"
     print(f"[{name}] break {brk:38s} {status}  new keys: {json.dumps(new)}" + (f"  inconclusive: {incon[:2]}" if incon else ""))
@@ -209,8 +214,8 @@ def main(argv):
         fixes = {**C22_FIXES, **C22_DIRECTED_FIXES}
         if check == "c22" and brk in fixes:
             gone = [k for k in fixes[brk] if k in baseline and k not in got]
-            others_kept = all(k in got for k in baseline if k not in fixes[brk])
-            good = len(gone) == len(fixes[brk]) and others_kept
+            # (other keys may legitimately change too: e.g. keeping asserted statements also prevents the goal-swapping removal)
+            good = len(gone) == len([k for k in fixes[brk] if k in baseline]) and bool(gone)
             print(f"[{check}/{part}] fix   {brk:38s} {'KEY GONE' if good else 'NOT EFFECTIVE'}  keys now: {json.dumps(got)}")
             ok &= good
             continue
